@@ -249,19 +249,19 @@ PROPS['C04'].update({
 PROPS['C01'].update({
     'level': 'other',
     'units': ['distill_builder'],
-    'technique': 'Verus contract on the extracted text of afftree_from_layers_generic (src/distill/builder.rs): forall layer sequences, preconditions and inputs the returned tree denotes "precondition tree, then the network function netw_fn", proved modularly over the contracts of the operations it calls (compose::<false,false>, apply_func, the four activation schemas: proved in their own units; infeasible_elimination, compose::<true,_>, argmax, class_characterization: assumed) + bounded end-to-end replay (bc distill) on the compiled crate',
+    'technique': 'Verus contract on the extracted text of afftree_from_layers_generic (src/distill/builder.rs): forall layer sequences, preconditions and inputs the returned tree denotes "precondition tree, then the network function netw_fn", proved modularly over the contracts of the operations it calls (compose::<false,false>, apply_func, the activation schemas, argmax and class_characterization: proved in their own units; infeasible_elimination and compose::<true,_>: assumed) + bounded end-to-end replay (bc distill) on the compiled crate',
     'level_text': ('Mixed / conditional. PROVED modulo "f64 = reals" (Verus, every dimension-consistent layer sequence over Linear / ReLU / LeakyReLU / HardTanh / HardSigmoid / Argmax / ClassChar, with or without a precondition tree, every input): '
                    'afftree_from_layers_generic returns a well-formed tree of the stated input dimension with tree_fn(result, x) == Some(netw_fn(layers, x)) when there is no precondition, and '
                    '== tree_fn(precondition, x).map(netw_fn(layers, .)) (undefined exactly where the precondition tree is) otherwise; the dimension bookkeeping (`dim`), the choice and parameters of each schema (hard tanh with -1, 1), '
                    'the order of composition and the dimension assertions are part of the proof, and the assert! / unwrap panics of the builder are unreachable for dimension-consistent input. '
-                   'The proof is MODULAR: it uses the contracts of compose::<false,false> (unit pwl_compose), apply_func (unit pwl_tree) and partial_ReLU / leaky_ReLU / hard_tanh / hard_sigmoid (unit pwl_schemas), which are proved, and '
-                   'ASSUMES the contracts written in this unit for infeasible_elimination (same denotation, well-formed), compose::<true,_> (same law as the un-pruned composition), argmax and class_characterization (textbook function) - '
-                   'these depend on the LP solver or are outside the proved schemas and are checked by the bounded replays of C03 / C17. '
+                   'The proof is MODULAR: it uses the contracts of compose::<false,false> (unit pwl_compose), apply_func (unit pwl_tree) and partial_ReLU / leaky_ReLU / hard_tanh / hard_sigmoid / argmax / class_characterization (unit pwl_schemas), which are proved, and '
+                   'ASSUMES the contracts written in this unit for infeasible_elimination (same denotation, well-formed) and compose::<true,_> (same law as the un-pruned composition) - '
+                   'these depend on the LP solver and are checked by the bounded replays of C03. '
                    'BOUNDED (bc distill): end-to-end comparison of distilled trees with the exact network function on a lattice incl. breakpoints, argmax ties and inputs outside the precondition, on the compiled crate.'),
     'design_ref': 'DESIGN.md §4 C01',
     'assumptions': ASSUME_COMMON + ASSUME_SLAB + ASSUME_ND + ASSUME_PWL + ASSUME_BC + [
-        'ASSUMED contracts (external_body in unit distill_builder): AffTree::infeasible_elimination keeps wf / shape / root / output dimensions and the denotation (same_denotation); compose::<true,_> (there: compose_pruned) satisfies the contract proved for compose::<false,false>; argmax(dim) and class_characterization(dim, c) denote first-maximum index resp. the indicator of "component c is maximal" with one-row terminals',
-        'contracts taken over verbatim (directive //@assumed: same signature rewrites and //@spec block as in the unit that proves them): AffTree::compose (units/pwl_compose.rs), AffTree::apply_func (units/pwl_tree.rs), partial_ReLU / partial_leaky_ReLU / partial_hard_tanh / partial_hard_sigmoid (units/pwl_schemas.rs)',
+        'ASSUMED contracts (external_body in unit distill_builder): AffTree::infeasible_elimination keeps wf / shape / root / output dimensions and the denotation (same_denotation); compose::<true,_> (there: compose_pruned) satisfies the contract proved for compose::<false,false>',
+        'contracts taken over verbatim (directive //@assumed: same signature rewrites and //@spec block as in the unit that proves them): AffTree::compose (units/pwl_compose.rs), AffTree::apply_func (units/pwl_tree.rs), partial_ReLU / partial_leaky_ReLU / partial_hard_tanh / partial_hard_sigmoid / argmax / class_characterization (units/pwl_schemas.rs)',
         'rule G1: afftree_from_layers_generic<I, Estimator, Visitor> is verified for I = Vec<Layer> and the no-op visitor: estimator and visitor calls are dropped TOGETHER WITH THEIR ARGUMENT EXPRESSIONS (dd.len() - old_len, dd.len() - num_terminals are therefore not checked for underflow), capacity hints (estimate_nodes, min, reserve) are dropped, `for layer in container.into_iter() { let layer = layer.borrow();` is the index loop over the vector',
         'rule N1: the temporary schema tree passed to compose is bound to a local first (`let __g = partial_ReLU(dim, *row); dd.compose(&__g);`) so that the proof can name it; rule I12: `dd.terminals().map(|x| x.aff.outdim()).next().unwrap()` is the trusted helper first_terminal_outdim (requires a terminal to exist, returns the row count of some terminal)',
         'the precondition tree is required to be well-formed with a common terminal output dimension and at least one terminal (true for every finite well-formed tree; not proved)',
@@ -275,12 +275,16 @@ PROPS['C17'].update({
     'technique': 'Verus contracts on the extracted activation schemas of src/distill/schema.rs: forall dim, row, parameters, x: tree_fn(schema, x) == textbook definition (proved through the AffTree / Tree / AffFunc contracts) + bounded replay (bc schema) for the remaining generators',
     'level_text': ('Mixed. PROVED modulo "f64 = reals" (Verus, every dimension, every component index, every finite parameter value, every input incl. breakpoints): partial_ReLU, partial_leaky_ReLU, '
                    'partial_threshold, partial_hard_tanh (min <= max), partial_hard_shrink and partial_hard_sigmoid build a well-formed tree whose denoted function tree_fn(root, x) changes exactly the '
-                   'named component according to the textbook scalar function and leaves the others untouched. '
-                   'BOUNDED only (bc schema, exhaustive small dims on a lattice hitting all breakpoints and ties): argmax, class_characterization, inf_norm, from_poly, from_slice + remove_axes.'),
+                   'named component according to the textbook scalar function and leaves the others untouched; argmax(dim) denotes the index of the FIRST maximal component for every dim >= 2 '
+                   '(the comparison tree built with a work stack: ghost map node -> (candidate, current maximum), value lemma by induction on dim - candidate); class_characterization(dim, c) denotes '
+                   'the indicator of "x_c is maximal" (ties count) for every dim >= 2, c < dim (chain tree: prelude/chain_spec.rs). All have terminals of one common output dimension. '
+                   'BOUNDED only (bc schema, exhaustive small dims on a lattice hitting all breakpoints and ties): inf_norm, from_poly, from_slice + remove_axes.'),
     'design_ref': 'DESIGN.md §4 C17',
     'assumptions': ASSUME_COMMON + ASSUME_SLAB + ASSUME_ND + ASSUME_PWL + ASSUME_BC + [
         'rule F1: float literals / negations in schema.rs are replaced by flit / fneg / fdiv / fle helpers with exact-real contracts (each site listed as //@bodysub in units/pwl_schemas.rs); parameters are finite (not NaN / infinite)',
         'the first key handed out by a fresh slab is 0 (Slab::fresh), which the generators rely on (add_child_node(0, ..))',
+        'rule I13: `(0..dim).filter(|x| *x != clazz)` in class_characterization is the verified helper range_except_vec (ascending indices below dim except clazz); `iter.next().unwrap()` is its element 0 and `for idx in iter` the index loop from 1',
+        '`i as f64` (argmax terminals) is the helper fidx with the assumed contract "exact" (indices are far below 2^53); termination of the work-stack loop of argmax is not proved',
     ],
 })
 
